@@ -17,6 +17,7 @@
   explicitly as `noSkip` — for *paths* (an intermediate public key at infinity does not parse),
   and for agreement with the standard (`*_matches_bip32`: the standard's result must be defined).
 -/
+import BtcVerif.Props.GuardPins.P_bip32
 import BtcVerif.Proofs.Bip32
 
 namespace BtcVerif.Props.C07
